@@ -2452,6 +2452,20 @@ clone_evrrul(echs_const_evstrm_t s)
 }
 
 /* this should be somewhere else, evrrul.c maybe? */
+static echs_instant_t
+shift_wall(echs_instant_t i, int off_from, int off_to)
+{
+/* echs_tzob_shift() for instants of any scale */
+	const echs_scale_t sca = echs_instant_scale(i);
+
+	if (LIKELY(sca == SCALE_GREGORIAN)) {
+		return echs_tzob_shift(i, off_from, off_to);
+	}
+	i = echs_instant_rescale(i, SCALE_GREGORIAN);
+	i = echs_tzob_shift(i, off_from, off_to);
+	return echs_instant_rescale(i, sca);
+}
+
 static size_t
 refill(struct evrrul_s *restrict strm)
 {
@@ -2459,6 +2473,8 @@ refill(struct evrrul_s *restrict strm)
  * http://icalevents.com/2447-need-to-know-the-possible-combinations-for-repeating-dates-an-ical-cheatsheet/
  * we're trying to follow that one closely. */
 	struct rrulsp_s *restrict rr = &strm->rrul;
+	const echs_instant_t until = rr->until;
+	const int pof = !echs_instant_all_day_p(strm->e.from) ? strm->pof : 0;
 
 	assert(rr->freq > FREQ_NONE);
 	if (UNLIKELY(echs_nul_instant_p(strm->e.from))) {
@@ -2467,9 +2483,14 @@ refill(struct evrrul_s *restrict strm)
 		return 0UL;
 	}
 
-	/* fill up with the proto instant */
+	/* fill up with the proto instant, the rules are about the wall clock
+	 * in the proto zone so hand over what that one shows, on a day that
+	 * isn't UTC's every now and then */
 	for (size_t j = 0U; j < GRP_CCH_OFF; j++) {
-		strm->cch[j] = strm->e.from;
+		strm->cch[j] = shift_wall(strm->e.from, 0, pof);
+	}
+	if (pof && !echs_max_instant_p(until) && !echs_instant_all_day_p(until)) {
+		rr->until = echs_tzob_shift(until, 0, pof);
 	}
 	/* and the period it stems from, a shifted proto instant may well
 	 * lie in a different month or year than the one it was generated in */
@@ -2504,6 +2525,12 @@ refill(struct evrrul_s *restrict strm)
 	case FREQ_SECONDLY:
 		strm->ncch = rrul_fill_Sly(strm->cch, GRP_CCH_OFF, rr);
 		break;
+	}
+
+	/* and back, the candidates keep the proto instant's distance to UTC */
+	rr->until = until;
+	for (size_t i = 0U; i < strm->ncch; i++) {
+		strm->cch[i] = shift_wall(strm->cch[i], pof, 0);
 	}
 
 	if (strm->ncch >= GRP_CCH_OFF) {
